@@ -1027,6 +1027,19 @@ pub fn compare(a: &Canon, b: &Canon) -> Result<(), (String, String)> {
     Ok(())
 }
 
+/// A token is irregular when its text, lexed on its own, is not that token: the lexer's label for it
+/// depends on what follows (logos backtracking: `D#` is `Ident` in `D#2024-01 ;`).
+pub fn has_irregular_token(text: &str) -> bool {
+    lex(text).into_iter().any(|t| {
+        if t.kind.is_trivia() || t.kind == TokenKind::Error {
+            return false;
+        }
+        let s = &text[usize::from(t.range.start())..usize::from(t.range.end())];
+        let alone = lex(s);
+        alone.len() != 1 || alone[0].kind != t.kind
+    })
+}
+
 pub fn toks_line(text: &str) -> String {
     let mut s = String::from("toks");
     let mut any = false;
@@ -1326,6 +1339,7 @@ pub fn witnesses() -> Vec<Witness> {
         Witness { name: "unterminated-comment", cfg: base_cfg(), text: "x := 1; (* open\n  y := 2;\n  z := 3;\n", ranges: &[], ontype: &[] },
         Witness { name: "web-comment-interior", cfg: base_cfg(), text: "PROGRAM P\n(* first\n      aligned   art\n   *)\nx := 1;\nEND_PROGRAM\n", ranges: &[], ontype: &[] },
         Witness { name: "web-stray-cr", cfg: base_cfg(), text: "a\r\r\nb\n", ranges: &[], ontype: &[] },
+        Witness { name: "lexer-context-dependent-token", cfg: base_cfg(), text: "x := D#2024-01 ;\n", ranges: &[], ontype: &[] },
         Witness { name: "exotic-space", cfg: base_cfg(), text: "x := 1;\n\u{a0}\n// c\n", ranges: &[], ontype: &[] },
     ]
 }
@@ -1495,6 +1509,10 @@ fn run_case(
     out.line(format!("# doc 0 source {}", json!(text)));
     out.line(format!("src {}", hex(text.as_bytes())));
     out.line(toks_line(text));
+    if has_irregular_token(text) {
+        out.line("# irregular source");
+        out.count("text-with-irregular-token");
+    }
     let before = canon(text);
 
     // web IDE formatter
@@ -1555,6 +1573,9 @@ fn run_case(
             out.line(format!("# doc 1 lsp-formatted {}", json!(f)));
             out.line(format!("src {}", hex(f.as_bytes())));
             out.line(toks_line(&f));
+            if has_irregular_token(&f) {
+                out.line("# irregular lsp-formatted");
+            }
             out.line("full");
             let again = lsp_request(sessions, cfg, &settings, &f, &Req::Full, doc_no)?;
             out.line(format!("impl {}", again.canonical()));
